@@ -82,6 +82,18 @@ pub fn configs(prop: &str, thorough: bool) -> Vec<SimConfig> {
                 c.max_depth = Some(if thorough { 18 } else { 13 });
                 v.push(c);
             }
+            // three requests over two origins with completed exchanges (macro step): one origin's connections
+            // all in use while the other origin is seen for the first time, then released and used again
+            let mut c = full("n3-macro-two-origins-max1", 3, true);
+            c.max_idle_per_host = 1;
+            c.origins = origins(&["http://a", "http://b"]);
+            c.allow_h2 = false;
+            c.ev_dial_fail = false;
+            c.ev_close = false;
+            c.ev_cancel = false;
+            c.macro_finish = true;
+            c.max_depth = Some(if thorough { 16 } else { 12 });
+            v.push(c);
             // mixed protocols, two origins, full alphabet, small bound
             let mut c = full("mixed-n2-max1", 2, true);
             c.max_idle_per_host = 1;
